@@ -15,7 +15,7 @@ RULE = ("a space MODEL (plain dict) is generated first (six kinds, shapes () .. 
         "is not a plain interior member (boundary, just-outside, malformed, foreign), the sampled space has a mask / "
         "non-finite or extreme bound / nesting / n-D shape, the pair is not an identity pair; distinct by "
         "(space repr, class, representation, value)")
-FLOOR = {"quick": 3000, "thorough": 20000}
+FLOOR = {"quick": 10000, "thorough": 100000}
 ASSUMPTIONS = [
     "x64 disabled: Box bounds are the float32 rounding of the constructor arguments; candidates are float32-representable",
     "subnormal float32 values are excluded (XLA CPU flushes them to zero, comparison outcome is platform-defined)",
@@ -24,7 +24,9 @@ ASSUMPTIONS = [
     "integral-valued floats and bools for Discrete/MultiDiscrete, 0.0/1.0 floats for MultiBinary, +-inf sitting on an "
     "infinite Box bound, complex numbers with zero imaginary part",
     "values produced by sample()/canonical() must be finite numbers inside the inclusive bounds (a space of reals)",
-    "Discrete n <= 2**31-1 (members must be representable as int32); empty masks are excluded",
+    "Discrete n <= 2**31-1 (members must be representable as int32); empty masks are excluded; sampling is exercised "
+    "for n <= 2**24+3 only (lerax materialises n probabilities: cost, not correctness)",
+    "contains is exercised eagerly only (behaviour under jit/vmap is C12's subject); sample is exercised eagerly, under vmap over keys and under jit",
     "Dict == with permuted key order is not asserted; Box(-0.0) vs Box(0.0) equality is not asserted, only that == implies equal hashes",
     "Gymnasium 1.3.0 spaces (==, key ordering) are the reference for the round trip",
 ]
@@ -713,12 +715,15 @@ def run_samples(ctx, m, space, n_eager, n_vmap, jit, base):
     from vlib.c14_helpers import mrepr, to_numpy
 
     out = []
+    attr = make_attr(m, space) if m["k"] in ("tuple", "dict") else None
     for j in range(n_eager):
         v = call_sample(ctx, m, space, ctx.key(base + j), "eager")
         if v is None:
             break
-        xn, _ = judge_produced(ctx, m, v, "sample", "eager", {"key": base + j})
+        xn, ok = judge_produced(ctx, m, v, "sample", "eager", {"key": base + j})
         out.append(xn)
+        if ok and j < 3:  # the space must recognise what it produced itself (judged by the model, as any candidate)
+            judge_contains(ctx, m, space, v, "own-sample", "jax", attribute=attr)
     if jit:
         v = call_sample(ctx, m, space, ctx.key(base + 500), "jit")
         if v is not None:
@@ -740,8 +745,10 @@ def run_samples(ctx, m, space, n_eager, n_vmap, jit, base):
         ctx.violation(f"{m['k']}-canonical-raises", {"space": mrepr(m), "err": f"{type(e).__name__}: {str(e)[:200]}"})
         c = None
     if c is not None:
-        xn, _ = judge_produced(ctx, m, c, "canonical", "eager", {})
+        xn, ok = judge_produced(ctx, m, c, "canonical", "eager", {})
         out.append(xn)
+        if ok:
+            judge_contains(ctx, m, space, c, "own-canonical", "jax", attribute=attr)
     return out
 
 
@@ -1373,7 +1380,7 @@ def u_gym(ctx):
 
     warnings.filterwarnings("ignore")
     rng = ctx.rng
-    N = ctx.n(150, 1000)
+    N = ctx.n(150, 3000)
     for i in range(N):
         m = gen_leaf(rng) if i % 3 == 0 else gen_nested(rng, 1 + i % 3, root=["dict", "tuple"][(i // 3) % 2])
         desc = {"sp": mrepr(m)}
